@@ -2,6 +2,8 @@ pub mod array;
 pub mod exp;
 pub mod list;
 pub mod tree;
+#[cfg(feature = "verif-hooks")]
+mod verif;
 mod node;
 mod pool;
 mod entity;
